@@ -18,6 +18,8 @@ type TxUniverse struct {
 	txs    map[int64]*wire.MsgTx
 	ids    map[bitcoin.Hash32]int64
 	hashes map[int64]bitcoin.Hash32
+	// VarOuts: transaction t has nouts(t) outputs (model TxFlow.nouts) instead of three
+	VarOuts bool
 }
 
 func NewTxUniverse() *TxUniverse {
@@ -67,8 +69,17 @@ func p2pkh(h []byte) []byte {
 	return append(s, 0x88, 0xac)
 }
 
-// Tx returns (building on first use) transaction t spending the given outpoints.  Every
-// transaction has exactly three outputs; output k carries the value 10 t + k (so a spent output is
+// nouts: the number of outputs of universe transaction t (model: TxFlow.nouts) - not the same for all, so that
+// a parent can have more outputs than the transaction spending it
+func nouts(t int64) int64 {
+	if t%4 == 3 {
+		return 5
+	}
+	return 3
+}
+
+// Tx returns (building on first use) transaction t spending the given outpoints.  Transaction t
+// has nouts(t) outputs (three, some five); output k carries the value 10 t + k (so a spent output is
 // identified by its outpoint id); output 0 pays to the subscribed hash iff the tx is relevant;
 // output 2 is a marker that makes the hash unique per id.
 func (u *TxUniverse) TxRel(t int64, body []int64, relevant bool) *wire.MsgTx {
@@ -95,6 +106,9 @@ func (u *TxUniverse) TxRel(t int64, body []int64, relevant bool) *wire.MsgTx {
 	marker[0], marker[1], marker[2] = 0x00, 0x6a, 0x08
 	binary.LittleEndian.PutUint64(marker[3:], uint64(t))
 	tx.AddTxOut(wire.NewTxOut(uint64(t*10+2), marker))
+	for k := int64(3); u.VarOuts && k < nouts(t); k++ {
+		tx.AddTxOut(wire.NewTxOut(uint64(t*10+k), p2pkh(other)))
+	}
 	u.txs[t] = tx
 	h := *tx.TxHash()
 	u.hashes[t] = h
